@@ -6,6 +6,11 @@ AERO = repo("pyModeS.extra.aero")
 A = "pyModeS.extra.aero."
 ATMOS = [A + n for n in ("atmos", "temperature", "pressure", "density", "vsound")]
 
+# native (binary64) tolerance of the round trips, relative to max(1, |value|): exact equality in the VC generator.
+# The compressible-flow formulas subtract nearly equal numbers at low speed ((1 + q/p)**(2/7) - 1 with q/p ~ 1e-6
+# at 0.5 m/s), which costs up to ~3e-9 in the round trip; 1e-9 was a false alarm of the thorough cross-check.
+RT_TOL = 1e-7
+
 
 @harness("C20", inputs={"H": RealRange(-500, 20000)}, functions=ATMOS, body_of=ATMOS, idealised=True, backend="ivbb",
          timeout={"quick": 120000, "thorough": 600000},
@@ -33,30 +38,30 @@ def isa_continuous_at_tropopause(d):
 @harness("C20", inputs={"V": RealRange(0.5, 450), "H": RealRange(-500, 20000)}, idealised=True, uf_axioms=True,
          functions=[A + "tas2mach", A + "mach2tas"], body_of=[A + "tas2mach", A + "mach2tas"])
 def tas_mach_inverse(V, H):
-    assert close(AERO.mach2tas(AERO.tas2mach(V, H), H), V), "mach2tas(tas2mach(V)) == V"
+    assert close(AERO.mach2tas(AERO.tas2mach(V, H), H), V, RT_TOL), "mach2tas(tas2mach(V)) == V"
     m = V / 340
-    assert close(AERO.tas2mach(AERO.mach2tas(m, H), H), m), "tas2mach(mach2tas(M)) == M"
+    assert close(AERO.tas2mach(AERO.mach2tas(m, H), H), m, RT_TOL), "tas2mach(mach2tas(M)) == M"
 
 
 @harness("C20", inputs={"V": RealRange(0.5, 450), "H": RealRange(-500, 20000)}, idealised=True, uf_axioms=True,
          functions=[A + "tas2eas", A + "eas2tas"], body_of=[A + "tas2eas", A + "eas2tas"])
 def tas_eas_inverse(V, H):
-    assert close(AERO.eas2tas(AERO.tas2eas(V, H), H), V), "eas2tas(tas2eas(V)) == V"
-    assert close(AERO.tas2eas(AERO.eas2tas(V, H), H), V), "tas2eas(eas2tas(V)) == V"
+    assert close(AERO.eas2tas(AERO.tas2eas(V, H), H), V, RT_TOL), "eas2tas(tas2eas(V)) == V"
+    assert close(AERO.tas2eas(AERO.eas2tas(V, H), H), V, RT_TOL), "tas2eas(eas2tas(V)) == V"
 
 
 @harness("C20", inputs={"V": RealRange(0.5, 450), "H": RealRange(-500, 20000)}, idealised=True, uf_axioms=True,
          functions=[A + "tas2cas", A + "cas2tas"], body_of=[A + "tas2cas", A + "cas2tas"],
          timeout={"quick": 60000, "thorough": 600000})
 def tas_cas_inverse(V, H):
-    assert close(AERO.cas2tas(AERO.tas2cas(V, H), H), V), "cas2tas(tas2cas(V)) == V"
+    assert close(AERO.cas2tas(AERO.tas2cas(V, H), H), V, RT_TOL), "cas2tas(tas2cas(V)) == V"
 
 
 @harness("C20", inputs={"V": RealRange(0.5, 450), "H": RealRange(-500, 20000)}, idealised=True, uf_axioms=True,
          functions=[A + "tas2cas", A + "cas2tas"], body_of=[A + "tas2cas", A + "cas2tas"],
          timeout={"quick": 60000, "thorough": 600000})
 def cas_tas_inverse(V, H):
-    assert close(AERO.tas2cas(AERO.cas2tas(V, H), H), V), "tas2cas(cas2tas(V)) == V"
+    assert close(AERO.tas2cas(AERO.cas2tas(V, H), H), V, RT_TOL), "tas2cas(cas2tas(V)) == V"
 
 
 @harness("C20", inputs={"V1": RealRange(0.5, 450), "V2": RealRange(0.5, 450), "H": RealRange(-500, 20000),
@@ -118,7 +123,7 @@ def airspeed_orderings(V, H):
                                                              A + "tas2mach", A + "mach2tas"],
          timeout={"quick": 60000, "thorough": 600000})
 def mach_cas_inverse(M, H):
-    assert close(AERO.cas2mach(AERO.mach2cas(M, H), H), M), "cas2mach(mach2cas(M)) == M"
+    assert close(AERO.cas2mach(AERO.mach2cas(M, H), H), M, RT_TOL), "cas2mach(mach2cas(M)) == M"
 
 
 # TAS >= EAS at altitude, deductively in two steps (the compressible CAS >= EAS ordering stays bounded):
